@@ -45,6 +45,7 @@ scenario(unsigned in_n, bool in_comma, bool in_des0, bool in_des1, bool in_des2)
 	bool inrange, wellformed;
 	struct init *ret;
 
+	SCENARIO_ENTER();
 	__CPROVER_assume(in_d0 <= 5 && in_d1 <= 5 && in_d2 <= 5 && in_id < 1000);
 	des[0] = in_des0; des[1] = in_des1; des[2] = in_des2; d[0] = in_d0; d[1] = in_d1; d[2] = in_d2;
 	exprs_init(&t_char, 4, &t_int);
@@ -91,7 +92,7 @@ scenario(unsigned in_n, bool in_comma, bool in_des0, bool in_des1, bool in_des2)
 	__CPROVER_assert(t_arr.base == &t_int && t_int.size == 4, "element type untouched");
 	__CPROVER_assert((in_n == 0) == (ret == 0), "the returned list is empty iff there was no initializer");
 #ifdef VERIF_CANARY
-	__CPROVER_assert(!(in_n == 3 && in_des1 && !in_des2 && in_d1 == 0 && in_comma), "CANARY");
+	__CPROVER_assert(!(g_last && in_d1 == 0), "CANARY");
 #endif
 }
 
@@ -101,10 +102,13 @@ harness(void)
 	unsigned n, m, c;
 
 	/* every structure of the family: (n, designated-mask, trailing comma); `{,}` is not in the family */
+	g_last = false;
 	scenario(0, false, false, false, false);
 	for (n = 1; n <= 3; n++)
 		for (m = 0; m < 8; m++)
 			for (c = 0; c < 2; c++)
-				if (m < (1u << n))
+				if (m < (1u << n)) {
+					g_last = n == 3 && m == 7 && c == 1;
 					scenario(n, c, m & 1, m & 2, m & 4);
+				}
 }
